@@ -383,3 +383,12 @@ func (r *Run) SortedFns() []string {
 	sort.Strings(out)
 	return out
 }
+
+// noteBudgetAbort records that paths were abandoned because the wall budget ran out.
+func (r *Run) noteBudgetAbort() {
+	r.mu.Lock()
+	if r.StopErr == "" || !strings.Contains(r.StopErr, "abandoned") {
+		r.StopErr = strings.TrimSpace(r.StopErr + " paths in flight were abandoned when the wall budget ran out")
+	}
+	r.mu.Unlock()
+}
